@@ -1411,7 +1411,7 @@ class TaggedProductList:
         fd = open(filename, "r")
 
         line = fd.readline()
-        mat = re.search(r"^EUPS distribution %s version list. Version (\S+)\s*$" % self.tag, line)
+        mat = re.search(r"^EUPS distribution %s version list. Version (\S+)\s*$" % re.escape(self.tag), line)
         if not mat:
             raise RemoteFileInvalid("First line of %s version file %s is corrupted:\n\t%s" %
                                     (self.tag, filename, line))
